@@ -9,4 +9,5 @@ Extraction "c14_model.ml"
   range_assign rr_assign rack_assign rack_assign_canonical rack_assign_topic
   group_by_topic find_members_by_topic partitions_by_topic find_partitions
   zones_of zoned_partitions zoned_consumers assigned aget bytes_eqb bytes_ltb
-  extract_topics read_partitions leader_partitions leader_requests broker_read read_each topic_exists leader_range leader_rr leader_rack.
+  extract_topics read_partitions leader_partitions leader_requests broker_read read_each topic_exists leader_range leader_rr leader_rack
+  sync_request wire_triples int32_of.
